@@ -271,8 +271,32 @@ def reply_class(replies):
     return tuple(out)
 
 
-def gen_case(rng):
+A, B = NAMES[0], NAMES[1]
+EAVES = ("match", 2, b"eavesdrop='true'")
+# decision-table rows that every run must contain (one per shard, before the random cases): name take-overs from an
+# owner that leaves the queue (DO_NOT_QUEUE) or stays in it, with and without further waiters, by a newcomer or by a
+# waiter; release of a contended name; a waiter that stops waiting
+FORCED = [
+    ([("connect",)] * 3 + [("request", 0, A, 5), ("request", 1, A, 0)], ("request", 2, A, 2)),
+    ([("connect",)] * 3 + [("request", 0, A, 5), ("request", 1, A, 1)], ("request", 2, A, 3)),
+    ([("connect",)] * 3 + [("request", 0, A, 1), ("request", 1, A, 0)], ("request", 2, A, 2)),
+    ([("connect",)] * 3 + [("request", 0, A, 5)], ("request", 2, A, 2)),
+    ([("connect",)] * 3 + [("request", 0, A, 1), ("request", 1, A, 0), ("request", 2, A, 0)], ("release", 0, A)),
+    ([("connect",)] * 3 + [("request", 0, A, 5), ("request", 1, A, 0)], ("request", 1, A, 6)),
+    ([("connect",)] * 3 + [("request", 0, A, 5), ("request", 1, A, 0), EAVES], ("request", 2, A, 2)),
+    ([("connect",)] * 3 + [("request", 0, A, 5), ("request", 1, A, 0), ("request", 2, A, 0)], ("request", 2, A, 2)),
+    ([("connect",)] * 4 + [("request", 0, A, 5), ("request", 1, A, 0), ("request", 3, A, 1), ("request", 0, B, 0)], ("request", 2, A, 6)),
+    ([("connect",)] * 3 + [("request", 0, A, 4), ("request", 1, B, 1), ("request", 0, B, 0)], ("request", 2, B, 3)),
+]
+
+
+def gen_case(rng, forced=None):
     """-> (setup steps, op)"""
+    if forced is not None:
+        setup, op = FORCED[forced % len(FORCED)]
+        setup = list(setup)
+        nq = sum(1 for st in setup if st[0] == "request")
+        return setup, op, (sum(1 for st in setup if st[0] == "connect"), ("forced", forced % len(FORCED)), nq)
     ncl = rng.randint(2, 4)
     setup = [("connect",) for _ in range(ncl)]
     shape = []
@@ -335,7 +359,14 @@ def op_class(setup, op, pre):
                 m.q[parts[1].encode()] = [[e.split("/")[0].encode(), e.split("/")[1] == "1", e.split("/")[2] == "1"] for e in parts[2:]]
         me = b":1.%d" % op[1]
         if op[0] == "request":
+            q0 = list(m.q.get(op[2]) or [])
             row = m.request(me, op[2], op[3])[2]
+            if row == "replace" and q0 and q0[0][2]:
+                # the replaced owner does not queue: it is removed (not moved to second place) - another code path with
+                # its own undo hook; whether others are waiting matters for the undo
+                row = "replace-owner-leaves" + (":with-waiters" if len(q0) > 1 else "")
+            if row.startswith("replace") and any(e[0] == me for e in q0):
+                row += ":by-waiter"       # the requester's own queue entry is re-linked first (no undo for that: known)
         else:
             row = m.release(me, op[2])[2]
         cls += ":" + row
@@ -346,8 +377,10 @@ def op_class(setup, op, pre):
     return cls + (":eavesdropped" if eav else "")
 
 
-def run_case(b, rundir, rng, part, cid, max_k=None, pair_limit=0):
-    setup, op, shape = gen_case(rng)
+def run_case(b, rundir, rng, part, cid, max_k=None, pair_limit=0, forced=None):
+    setup, op, shape = gen_case(rng, forced)
+    if forced is not None:
+        part.count("forced-decision-rows")
     wit = {"case": cid, "setup": [repr(s) for s in setup], "op": repr(op)}
     # ---- reference (fault-free) run
     w = World(b, rundir, setup, "ref")
@@ -504,11 +537,12 @@ def _worker(args):
             cid = shard * 100000 + i
             rng = gen.rng_for(seed, PROP, shard, i)
             try:
-                run_case(b, os.path.join(rundir, "c%d" % i), rng, part, cid, max_k, pair_limit if i % 4 == 0 else 0)
+                run_case(b, os.path.join(rundir, "c%d" % i), rng, part, cid, max_k, pair_limit if i % 4 == 0 else 0,
+                         forced=shard if i == 0 else (shard + 16 if i == 1 and count > 16 else None))
             except (client.Timeout, client.Closed, RuntimeError) as e:
                 part.inconclusive.append("case %d aborted: %s %s" % (cid, type(e).__name__, e))
             shutil.rmtree(os.path.join(rundir, "c%d" % i), ignore_errors=True)
-            if shard == 0 and i < 2:
+            if shard == 0 and 2 <= i < 4:
                 s, op, shape = gen_case(gen.rng_for(seed, PROP, shard, i))
                 part.sample({"case": cid, "setup": [repr(x) for x in s], "op": repr(op)})
     finally:
@@ -532,7 +566,8 @@ def run(tier, seed, replay=None, scale=1.0):
         part = report.Part()
         rundir = tempfile.mkdtemp(prefix="verif-c14-")
         try:
-            run_case(b, rundir, gen.rng_for(j["seed"], PROP, shard, i), part, cid, None, 80)
+            run_case(b, rundir, gen.rng_for(j["seed"], PROP, shard, i), part, cid, None, 80,
+                     forced=shard if i == 0 else (shard + 16 if i == 1 and j.get("tier") == "thorough" else None))
         finally:
             shutil.rmtree(rundir, ignore_errors=True)
         part.sig("replay", 0)
